@@ -494,6 +494,16 @@ pub fn run(out: &mut Out, tier: &str, rng: &mut Rng) {
     let firsts = gen::first_tokens();
     out.comment("regression corpus (minimised earlier failures), always first");
     for s in crate::corpus::REGRESS.iter() { parse_ops(out, s.as_bytes()); value_ops(out, s.as_bytes()); }
+    // whatever of these the implementation accepts (lenient zone, repeated keys, `other` extensions it may choose to
+    // support) must still satisfy C12 against its own canonical string: == iff equal strings, Equal iff ==
+    for s in crate::corpus::REGRESS.iter().chain(["en-a-foo", "en-a-foo-b-bar", "de-1-abc", "en-u-ca-buddhist-a-foo", "en-a-foo-x-p", "en-u-ca-a-ca-b",
+                                                 "en-t-h0-a-h0-b", "en--u-foo", "en-u", "en-t-h0"].iter()) {
+        if let Ok(l) = Locale::from_bytes(s.as_bytes()) {
+            let c = l.to_string();
+            out.case("loc_cmp", &[s.as_bytes(), c.as_bytes()], || loc_cmp(s.as_bytes(), c.as_bytes()));
+            out.case("loc_cmp", &[c.as_bytes(), s.as_bytes()], || loc_cmp(c.as_bytes(), s.as_bytes()));
+        }
+    }
     out.comment("real-world tags");
     for s in crate::corpus::REALWORLD.iter() { parse_ops(out, s.as_bytes()); value_ops(out, s.as_bytes()); }
     for a in crate::corpus::REALWORLD.iter().take(40) { for b in crate::corpus::REALWORLD.iter().take(40) {
@@ -655,6 +665,32 @@ pub fn run(out: &mut Out, tier: &str, rng: &mut Rng) {
              mk(b'V', &["valencia", "macos"]), mk(b'V', &[]), mk(b'v', &[]), mk(b'h', &["macos"]), mk(b'L', &["fr"]), mk(b'S', &["Latn"]), mk(b'R', &[""]),
              mk(b'A', &["ab"]), mk(b'K', &["c", "x"]), mk(b'P', &[""]), mk(b'F', &["h0", "a*"])]
     };
+    // G6c: every argument-taking operation with EVERY argument of 0-2 bytes over the boundary classes and the
+    // boundary-class strings of 3, 8 and 9 bytes (one setter + the matching getter, from a start that has entries)
+    out.comment("G6c: argument sweep (all 0-2 byte arguments over the boundary classes) for every key / value / attribute / tag operation");
+    {
+        let classes: &[u8] = b"AZaz09@[`{/:-_ \x00\x7f\x80\xff*";
+        let mut argsweep: Vec<Vec<u8>> = vec![vec![]];
+        for a in classes { argsweep.push(vec![*a]); }
+        for a in classes { for b in classes { argsweep.push(vec![*a, *b]); } }
+        for n in [3usize, 8, 9] { for a in [b'a', b'Z', b'0', b'-', 0x80u8] { for last in [b'a', b'9', b'*'] { let mut v = vec![a; n]; v[n - 1] = last; argsweep.push(v); } } }
+        let st: &[u8] = b"en-u-attr-ca-buddhist-t-de-h0-hybrid-x-tag";
+        for arg in argsweep.iter() {
+            // (setter code, payload prefix before the swept argument, payload suffix after it, getter code)
+            for (set, pre, post, get) in [(b'A', 0usize, 0usize, b'a'), (b'K', 0, 1, b'k'), (b'K', 1, 0, b'k'), (b'F', 0, 1, b'f'), (b'F', 1, 0, b'f'),
+                                          (b'P', 0, 0, b'p'), (b'd', 0, 0, b'a'), (b'r', 0, 0, b'k'), (b'm', 0, 0, b'f'), (b'q', 0, 0, b'p'), (b'V', 0, 0, b'h')] {
+                let mut pl: Vec<Vec<u8>> = vec![];
+                if pre == 1 { pl.push(if set == b'K' { b"ca".to_vec() } else { b"h0".to_vec() }); }
+                pl.push(arg.clone());
+                if post == 1 { pl.push(b"value".to_vec()); }
+                let mut args: Vec<Vec<u8>> = vec![st.to_vec(), vec![set], pl.len().to_string().into_bytes()];
+                args.extend(pl.iter().cloned());
+                args.push(vec![get]); args.push(b"1".to_vec()); args.push(if pre == 1 { pl[0].clone() } else { arg.clone() });
+                let refs: Vec<&[u8]> = args.iter().map(|v| v.as_slice()).collect();
+                out.case("loc_hist", &refs, || loc_hist(&refs));
+            }
+        }
+    }
     let depth = if thorough { 3 } else { 2 };
     let starts: [&[u8]; 3] = [b"", b"en-US-u-foo-ca-buddhist-x-b-a", b"sr-t-en-h0-hybrid"];
     for st in starts.iter() {
